@@ -31,8 +31,10 @@ import (
 type sweepEnv struct {
 	ta    *TestApp
 	ctx   sdk.Context
+	now   time.Time
 	addrs []string // by ADDR class
 	gov   string
+	other string
 }
 
 // ---- class tables ------------------------------------------------------------------------------
@@ -129,12 +131,12 @@ func product(dims []int, f func(v []int)) {
 	rec(0)
 }
 
-func runSweep(ta *TestApp, rep *Report) []string {
+func newSweepEnv(ta *TestApp) (*sweepEnv, []sdk.AccAddress) {
 	app := ta.App
 	base, _ := ta.Ctx().CacheContext()
 	now := time.Unix(1700000000, 0).UTC()
 	ctx := base.WithBlockTime(now)
-	e := &sweepEnv{ta: ta, ctx: ctx, gov: appparams.GetAuthority()}
+	e := &sweepEnv{ta: ta, ctx: ctx, now: now, gov: appparams.GetAuthority()}
 	// ---- state: absent X, base B (with key), owner O (with pools), vesting V, blocked module M
 	mk := func(s string) sdk.AccAddress { return sdk.AccAddress([]byte(fmt.Sprintf("sweep-address-%06s", s))[:20]) }
 	X, B, O, V, PO := mk("absent"), mk("base"), mk("owner"), mk("vest"), mk("bigown")
@@ -158,7 +160,17 @@ func runSweep(ta *TestApp, rep *Report) []string {
 		{Name: "pool2", VestingType: "vt", LockStart: now.Add(-2 * time.Hour), LockEnd: now.Add(-time.Hour), InitiallyLocked: fiveE18, Withdrawn: sdk.ZeroInt(), Sent: sdk.ZeroInt()}}})
 	fundModule(ctx, ta, vesttypes.ModuleName, sdk.NewCoins(sdk.NewCoin("uc4e", fiveE18.MulRaw(2))))
 	e.addrs = []string{"", "c4e1notvalid", X.String(), B.String(), O.String(), V.String(), M.String(), PO.String()}
-	other := mk("other").String()
+	e.other = mk("other").String()
+	return e, []sdk.AccAddress{X, B, O, V, M, PO}
+}
+
+func runSweep(ta *TestApp, rep *Report) []string {
+	app := ta.App
+	e, accs := newSweepEnv(ta)
+	ctx := e.ctx
+	now := e.now
+	B, O, V, M, PO := accs[1], accs[2], accs[3], accs[4], accs[5]
+	other := e.other
 	auth := func(c int) string {
 		if c == 1 {
 			return e.gov
